@@ -509,17 +509,27 @@ func runScenario(base string, sc scenario, bin string) (res scenResult) {
 
 	// what does nsqd still owe?  in-flight messages of the dead client come back after msg-timeout
 	var cc chanCounts
+	var ccHist []string
 	for dl := time.Now().Add(60 * time.Second); ; {
 		cc, _ = channelCounts(n, topicName, channel)
+		if h := fmt.Sprintf("%+v", cc); len(ccHist) == 0 || !strings.HasSuffix(ccHist[len(ccHist)-1], h) {
+			ccHist = append(ccHist, fmt.Sprintf("%dms %s", time.Since(t0).Milliseconds(), h))
+		}
 		// Messages: everything published has been copied from the topic into the channel
 		if cc.Messages >= uint64(sc.NMsgs) && cc.InFlight == 0 && cc.Deferred == 0 {
-			break
+			// nsqd's stats are not one atomic snapshot (depth is read before the message count): look once more now
+			// that the count is known to be complete
+			cc, _ = channelCounts(n, topicName, channel)
+			if cc.InFlight == 0 && cc.Deferred == 0 {
+				break
+			}
 		}
 		if time.Now().After(dl) {
 			return fail("in-flight messages of the stopped tool never came back: %+v", cc)
 		}
 		time.Sleep(20 * time.Millisecond)
 	}
+	settleSeq := dbgSeq()
 	owedByStats := int(cc.Depth + cc.InFlight + cc.Deferred)
 	drained, err := drainChannel(n, topicName, channel, time.Now().Add(90*time.Second))
 	if err != nil {
@@ -675,7 +685,8 @@ func runScenario(base string, sc scenario, bin string) (res scenResult) {
 				both = append(both, i)
 			}
 		}
-		res.Notes = append(res.Notes, fmt.Sprintf("drained although a FIN for them is in the syscall log: %v (of %d)", both, sc.NMsgs))
+		res.Notes = append(res.Notes, fmt.Sprintf("counts seen while settling: %v (mark %d); drained although a FIN for them is in the syscall log: %v (of %d)",
+			ccHist, settleSeq, both, sc.NMsgs))
 	}
 	for i := 1; i <= sc.NMsgs; i++ {
 		if !owed[i] && !finned[i] {
